@@ -522,6 +522,7 @@ func (p *Peer) addConnection(c *Connection, direction connectionDirection) error
 	}
 	*conns = append(*conns, c)
 	p.Unlock()
+	verifPoint("peer.addConnection.appended", c.connID)
 
 	// Inform third parties that a peer gained a connection.
 	p.onStatusChanged(p)
